@@ -272,7 +272,11 @@ for _pid in ("C11", "C17"):
                                  "(modulo XML line-end normalisation), bodies with non-BMP and XML metacharacters; " + _HTTP_BOUND}
 PROPS["C02"]["functions"] += [W + "GetETagProperty.get_value"]
 PROPS["C16"]["functions"] += [W + "create_href@based", W + "CurrentUserPrincipalProperty.get_value"]
-PROPS["C18"]["functions"] += [W + "CurrentUserPrincipalProperty.get_value", W + "create_href@based"]
+PROPS["C18"]["functions"] += [W + "CurrentUserPrincipalProperty.get_value", W + "create_href@based",
+                              WEB + "XandikosBackend._mark_as_principal", WEB + "XandikosBackend.create_principal"]
+for _f in (WEB + "XandikosBackend._mark_as_principal", WEB + "XandikosBackend.create_principal"):
+    PROPS["C18"]["replay"][_f] = DISCOVERY
+    PROPS["C18"]["standins"][_f] = {"driver": DISCOVERY, "bound": _DISC_BOUND}
 for _f in (W + "CurrentUserPrincipalProperty.get_value", W + "create_href@based"):
     PROPS["C18"]["replay"][_f] = DISCOVERY
     PROPS["C18"]["standins"][_f] = {"driver": DISCOVERY, "bound": _DISC_BOUND}
